@@ -36,8 +36,8 @@ import (
 type peers18 struct {
 	revision.RevisionSyncer
 	*leader.Stub
-	proxyOn     bool
-	proxiedTxn  int
+	proxyOn      bool
+	proxiedTxn   int
 	proxiedWatch int
 }
 
@@ -529,9 +529,9 @@ func c18SyncScenario(readers, advances int) *mc.Scenario {
 
 func init() {
 	mc.Register(&mc.Property{
-		ID:    "C18",
-		Level: "model_checking",
-		Rule: "(a) the full configuration matrix, every cell executed: 25 request types of both APIs (etcd Range get/list/count/partitions, Txn create/update/delete/compact/invalid, Watch pure/non-pure/range-stream/cancel, Compact, LeaseGrant; native Create/Update/Delete/Compact/Get/Range/Count/ListPartition/RangeStream/Watch) x {leader, follower} x {proxy off, on} x leader {reachable, connection refused, HTTP 400, HTTP 200 with a body that is not JSON} = 400 cells, through the real etcd and native servers with the REAL revision syncer against an in-process HTTP endpoint and a recording backend; (b) every schedule (preemption-bounded, state cache) of 2 follower range reads against a leader committing 1-2 writes on the shared store, single-flight group compiled against the scheduler",
+		ID:     "C18",
+		Level:  "model_checking",
+		Rule:   "(a) the full configuration matrix, every cell executed: 25 request types of both APIs (etcd Range get/list/count/partitions, Txn create/update/delete/compact/invalid, Watch pure/non-pure/range-stream/cancel, Compact, LeaseGrant; native Create/Update/Delete/Compact/Get/Range/Count/ListPartition/RangeStream/Watch) x {leader, follower} x {proxy off, on} x leader {reachable, connection refused, HTTP 400, HTTP 200 with a body that is not JSON} = 400 cells, through the real etcd and native servers with the REAL revision syncer against an in-process HTTP endpoint and a recording backend; (b) every schedule (preemption-bounded, state cache) of 2 follower range reads against a leader committing 1-2 writes on the shared store, single-flight group compiled against the scheduler",
 		Assume: []string{"an HTTP round trip is one atomic step of the calling thread", "the etcd proxy is a recording stub (the real proxy needs a gRPC connection to a live leader)"},
 		Exec:   c18Exec,
 		Scenarios: func(tier string) []*mc.Scenario {
